@@ -264,6 +264,16 @@ def shard_skeletons(ctx, shard, nshards, n):
                 ctx.rec.run_case(CHECKS, 'lines-x', {'script': M.name_skeleton(sk), 'syntax': syn, 'options': {}})
 
 
+def shard_deep(ctx, shard, nshards, n):
+    "group-free skeletons with exactly n elements: climbs that do not reach the top followed by further descents/climbs need depth ≥ 3 and ≥ 6 elements (`a>b>c^d>e^f`)"
+    k = 0
+    for sk in M.skeletons(n, 0):
+        k += 1
+        if k % nshards != shard:
+            continue
+        ctx.rec.run_case(CHECKS, 'lines-x', {'script': M.name_skeleton(sk), 'syntax': ('haml', 'pug', 'slim')[k % 3], 'options': {}})
+
+
 def mention_strategy():
     ident = st.text('abcxyz-_1', min_size=1, max_size=4).filter(lambda s: not s[0].isdigit() and s[0] not in '-')
     # class names may begin with `-`/`--` (BEM-style element and modifier names); ids and first characters of names may not
@@ -338,6 +348,9 @@ def run(ctx):
     n = ctx.pick(3, 4)
     ctx.run_parallel('shard_skeletons', extra=(n,))
     ctx.exhaustive('every operator skeleton with ≤ %d elements (groups nested ≤ 2, optional *2) × haml/pug/slim' % n)
+    nd = ctx.pick(6, 7)
+    ctx.run_parallel('shard_deep', extra=(nd,))
+    ctx.exhaustive('every group-free operator skeleton with exactly %d elements (each under one of haml/pug/slim in turn)' % nd)
     ctx.run_parallel('shard_random', extra=(ctx.pick(300, 4000),))
     ctx.run_cases('text-parent', text_parent_cases())
     ctx.exhaustive('3 parent chains × 5 text-only items that keep their children × 6 child shapes × haml/pug/slim × 2 indents: every element on its own line at its depth')
